@@ -33,6 +33,7 @@ SelectedOK(p, r) ==
     [] r.kind = "GetMdDescription" -> Got(r, "D") = PresentD(p)
     [] r.kind = "GetContextStates" -> Got(r, "C") = PresentC(p)
     [] r.kind = "GetMdState[m1]" -> Got(r, "S") = (PresentS(p) \cap {"m1"})
+    [] r.kind = "GetMdState[req]" -> Got(r, "S") = (PresentS(p) \cap Rng(r.requested))
     \* requested descriptors: what is returned beyond the requested ones is the service's rule (the code returns the whole
     \* description if any requested handle exists); version consistency demands that the requested descriptors that exist
     \* at the stated version are there, and that nothing is returned if none of them exists at that version
